@@ -256,3 +256,85 @@ fn record_defaults(schema: &RecordSchema, xs: &[Val]) -> Vec<Val> {
         })
         .collect()
 }
+
+/// `v` with every transient field replaced by a freshly generated value of the field's type
+/// (two values that differ only in transient fields must encode identically — C14)
+pub fn scramble_transients(ty: &Ty, v: &Val, rng: &mut crate::rng::Rng, ctx: &crate::genval::GenCtx) -> Val {
+    match ty {
+        Ty::Named(n) => scramble_transients(&resolve(n), v, rng, ctx),
+        Ty::Wrap(t) => scramble_transients(t, v, rng, ctx),
+        Ty::Opt(t) => match v {
+            Val::Some(x) => Val::some(scramble_transients(t, x, rng, ctx)),
+            _ => v.clone(),
+        },
+        Ty::Res(ok, e) => match v {
+            Val::Ok(x) => Val::Ok(Box::new(scramble_transients(ok, x, rng, ctx))),
+            Val::Err(x) => Val::Err(Box::new(scramble_transients(e, x, rng, ctx))),
+            _ => v.clone(),
+        },
+        Ty::Tuple(ts) => match v {
+            Val::Tuple(xs) => Val::Tuple(ts.iter().zip(xs).map(|(t, x)| scramble_transients(t, x, rng, ctx)).collect()),
+            _ => v.clone(),
+        },
+        Ty::Seq(t) | Ty::Array(t, _) => match v {
+            Val::Seq(xs) => Val::Seq(xs.iter().map(|x| scramble_transients(t, x, rng, ctx)).collect()),
+            _ => v.clone(),
+        },
+        // elements of sets and keys of maps are left alone: changing them could merge elements
+        Ty::Map(_, val_ty) => match v {
+            Val::Seq(xs) => Val::Seq(
+                xs.iter()
+                    .map(|x| match x {
+                        Val::Tuple(kv) if kv.len() == 2 => Val::Tuple(vec![kv[0].clone(), scramble_transients(val_ty, &kv[1], rng, ctx)]),
+                        other => other.clone(),
+                    })
+                    .collect(),
+            ),
+            _ => v.clone(),
+        },
+        Ty::Record(schema) => match v {
+            Val::Rec(xs) => Val::Rec(scramble_record(schema, xs, rng, ctx)),
+            _ => v.clone(),
+        },
+        Ty::Enum(schema) => match v {
+            Val::Ctor(d, xs) => Val::Ctor(*d, scramble_record(&schema.variants[*d].record, xs, rng, ctx)),
+            _ => v.clone(),
+        },
+        _ => v.clone(),
+    }
+}
+
+fn scramble_record(schema: &RecordSchema, xs: &[Val], rng: &mut crate::rng::Rng, ctx: &crate::genval::GenCtx) -> Vec<Val> {
+    schema
+        .fields
+        .iter()
+        .zip(xs)
+        .map(|(f, x)| {
+            if f.transient {
+                // a value different from the declared default whenever the type has more than one value
+                let mut fresh = crate::genval::gen_val(&f.ty, rng, ctx);
+                for _ in 0..4 {
+                    if Some(&fresh) != f.default.as_ref() {
+                        break;
+                    }
+                    fresh = crate::genval::gen_val(&f.ty, rng, ctx);
+                }
+                fresh
+            } else {
+                scramble_transients(&f.ty, x, rng, ctx)
+            }
+        })
+        .collect()
+}
+
+/// does the type contain a transient field / a transient constructor anywhere
+pub fn has_transient_field(ty: &Ty) -> bool {
+    ty.any(
+        &mut |t| match t {
+            Ty::Record(r) => r.fields.iter().any(|f| f.transient),
+            Ty::Enum(e) => e.variants.iter().any(|v| v.record.fields.iter().any(|f| f.transient)),
+            _ => false,
+        },
+        &mut Vec::new(),
+    )
+}
